@@ -4,9 +4,12 @@
    answers:  b<k> (k bytes) | a (EAGAIN) | i (EINTR) | e<code> (other errno)
    A readiness event is assumed after every would-block / partial result (the answers are consumed event by event).
    Output:  res=<pending|done|nil|buf|failed:…|starved> start|read=<n> left=<n> calls=<off>:<len>:<got>,…
+     X <status word>                                             proc_get_status on one wait-status word (signed decimal)
+   Output:  gen=<n|panic> model=<n|panic>     (regenerated expression trees of Gen/ProcStat.lean / the model's glibc shapes)
 -/
 import Driver.Util
 import JanetModel.Stream.Model
+import JanetModel.Gen.ProcStat
 open Driver JanetModel.Stream
 
 def parseAns (t : String) : Option Ans :=
@@ -63,8 +66,17 @@ def flatRead (chunk recvfrom : Bool) (base : Nat) : Nat → RSt Nat → List Ans
     | .pending => if o.rest.isEmpty then (o.st, .pending, acc ++ o.calls) else flatRead chunk recvfrom base fuel o.st o.rest (acc ++ o.calls)
     | r => (o.st, r, acc ++ o.calls)
 
+def showOutcome : JanetModel.Proc.Outcome → String
+  | .code n => toString n
+  | .panic => "panic"
+
 def step (_ : Unit) (toks : List String) : Unit × String :=
   match toks with
+  | ["X", w] =>
+    match w.toInt? with
+    | some w =>
+      ((), s!"gen={showOutcome (JanetModel.Proc.decode JanetModel.Gen.ProcStat.branches w)} model={showOutcome (JanetModel.Proc.decode JanetModel.Proc.modelBranches w)}")
+    | none => ((), "parse-error")
   | "W" :: len :: dg :: rest =>
     match len.toNat?, parseAnss rest with
     | some len, some as =>
